@@ -858,10 +858,20 @@ Definition slice_pos (len n : Z) : Z :=
   if n <? 0 then (let n' := len + n in if n' <? 0 then len else n')
   else if len <? n then len else n.
 
-(* paramExp, case pe.Slice != nil with callVarInd: rs = []rune(str) *)
-Definition slice_str (rs : list N) (off len : option Z) : res (list N) :=
+(* paramExp, case pe.Slice != nil with callVarInd: rs = []rune(str); set = the parameter is set.
+   None = the error "substring expression < 0" (the command fails, no panic) *)
+Definition slice_str (rs : list N) (set : bool) (off len : option Z) : res (option (list N)) :=
+  let in_range := match off with
+                  | Some o => (o <=? zlen rs) && (- zlen rs <=? o)
+                  | None => true
+                  end in
   rs1 <- match off with Some o => slice_from rs (slice_pos (zlen rs) o) | None => Ok rs end ;;
-  match len with Some l => slice_to rs1 (slice_pos (zlen rs1) l) | None => Ok rs1 end.
+  match len with
+  | Some l =>
+      if (l <? 0) && (zlen rs1 + l <? 0) && set && in_range then Ok None
+      else r <- slice_to rs1 (slice_pos (zlen rs1) l) ;; Ok (Some r)
+  | None => Ok (Some rs1)
+  end.
 
 (* Config.sliceElems *)
 Definition slice_elems (arg0 : str) (elems : list str) (ix : list Z) (positional : bool)
